@@ -21,9 +21,12 @@ Full strength: td_weight (every numeric instance, NaN included), td_minmax_exact
 td_means_within, td_extremes_singleton, td_rank_range_mono, td_cdf_pmf.
 Quantile: range, q(0) = min, q(1) = max proved for both argument orders of the interpolation call
 (`td_quantile_mono_partial`); monotonicity in the rank is FALSE of the current code
-(`td_quantile_mono_full_false`, witness replayed by the check, known finding `quantile-not-monotone`).
+(`td_quantile_mono_full_false`, witness replayed by the check, known finding `quantile-not-monotone`) and
+PROVED at full strength for the reference argument order, i.e. for the code with the proposed one-line fix
+(`td_quantile_mono_fixed`).  The translator reads the argument order from the header, so the model (and which of the
+two theorems speaks about the code) follows the source.
 -/
-import DSProofs.Lemmas.TDigestCdf
+import DSProofs.Lemmas.TDigestQuantMono
 import DSGen.TDigest
 namespace DS.TDigest
 open Num Conv
@@ -191,8 +194,7 @@ def td_quantile_mono_full (tun : Tun) : Prop :=
 /-- PROVED PART (every `tun`, i.e. both argument orders of the `weighted_average` call): get_quantile never
 throws for a rank in [0,1] on a non-empty digest, its value lies in [min, max], q(0) = min, q(1) = max.
 MISSING w.r.t. `td_quantile_mono_full`: monotonicity in the rank — false for the argument order of the current
-code (`td_quantile_mono_full_false`); for the reference order (`quantW1W2 = false`, the proposed fix) it is not
-proved here (only checked by the trace oracle on the patched tree). -/
+code (`td_quantile_mono_full_false`), true for the reference order (`td_quantile_mono_fixed`). -/
 theorem td_quantile_mono_partial (sc : Scale Rat) (hsc : ScaleOK sc) (tun : Tun) (h : Hist Rat) (hne : h.accepted ≠ []) :
     ∀ r, 0 ≤ r → r ≤ 1 → ∃ q, (getQuantile sc tun (h.eval sc tun) r).1 = some q ∧
         (h.eval sc tun).min ≤ q ∧ q ≤ (h.eval sc tun).max ∧
@@ -203,6 +205,18 @@ theorem td_quantile_mono_partial (sc : Scale Rat) (hsc : ScaleOK sc) (tun : Tun)
     · rfl
     · exact absurd ((td_minmax_exact sc hsc tun h).1.1 hh) hne
   exact fun r h0 h1 => getQuantile_within sc hsc tun _ i he r h0 h1
+
+/-- FULL STATEMENT for the reference argument order `weighted_average(mean[i], w2, mean[i+1], w1)` (every other
+tunable arbitrary): this is the code with proposed_fixes/C17-quantile-interpolation-weights-swapped.patch applied. -/
+theorem td_quantile_mono_fixed (tun : Tun) (hq : tun.quantW1W2 = false) : td_quantile_mono_full tun := by
+  intro sc hsc h hne
+  have i := inv_eval sc hsc tun h
+  have he : (h.eval sc tun).isEmpty = false := by
+    cases hh : (h.eval sc tun).isEmpty
+    · rfl
+    · exact absurd ((td_minmax_exact sc hsc tun h).1.1 hh) hne
+  exact ⟨td_quantile_mono_partial sc hsc tun h hne,
+    fun r1 r2 q1 q2 h0 h12 h1 e1 e2 => getQuantile_mono sc hsc tun hq _ i he r1 r2 h0 h12 h1 q1 q2 e1 e2⟩
 
 /-- the header constants in force, with the interpolation call as the CURRENT code has it:
 `weighted_average(mean[i], w1, mean[i+1], w2)` -/
@@ -287,6 +301,11 @@ example : exHist.accepted = [2, 2, 7, 9, 1, 2] ∧
     (getQuantile witnessScale tunAsCoded (exHist.eval witnessScale tunAsCoded) 1).1 = some 9 := by decide +kernel
 
 example : ScaleOK witnessScale := (scaleHyp_k2_shape _).ok
+
+/-- the same witness with the reference argument order is monotone at the two ranks: q(5/12) = 3 ≤ 13/3 = q(7/12) -/
+example : (getQuantile witnessScale { tunAsCoded with quantW1W2 := false } (witnessHist.eval witnessScale tunAsCoded) (5 / 12)).1 = some 3 ∧
+    (getQuantile witnessScale { tunAsCoded with quantW1W2 := false } (witnessHist.eval witnessScale tunAsCoded) (7 / 12)).1 = some (13 / 3) := by
+  decide +kernel
 
 /-- CDF/PMF on the example: three split points, four buckets summing to 1 -/
 example : (getCDF witnessScale tunAsCoded (exHist.eval witnessScale tunAsCoded) [1, 2, 8]).1 = some [1 / 12, 1 / 4, 41 / 48, 1] ∧
